@@ -33,6 +33,8 @@ func runC15(c *Ctx) {
 	lazySkipIsStrict(c, "C15.R10")
 	fileNameIsRelByPathRules(c, "C15.R11")
 	perFileErrorsAreNotFatal(c, "C15.R12")
+	locksNeverCopied(c, "C15.R13", "cmd/templ/generatecmd", "cmd/templ/generatecmd/watcher")
+	sharedSlicesNotAppendedInPlace(c, "C15.R14", "cmd/templ/generatecmd", "cmd/templ/generatecmd/watcher")
 	p := c.pkg("cmd/templ/generatecmd")
 	info := p.TypesInfo
 
